@@ -496,6 +496,8 @@ class World:
         self.start_error = None
         self.trace = []          # events for Trace_Persistent
         self._cls_cache = (None, None)
+        self._cur_cache = None
+        self.recording = True
         self._last_target = 'absent'
         self.fs.observer = self._on_fs
 
@@ -512,14 +514,22 @@ class World:
         mod = self.m_or_uc()
         if mod is None or not hasattr(mod, 'parameters') or any(p not in mod.parameters for p in self.pnames):
             return 'none'
+        vals = [mod.parameters[p].value for p in self.pnames]
+        old = self._cur_cache
+        if old is not None and all(a is b for a, b in zip(old[0], vals)):
+            return old[1]
         c = self.cur_id(mod)
-        return 'none' if c == 'none' else 'c:' + c
+        c = 'none' if c == 'none' else 'c:' + c
+        self._cur_cache = (vals, c)
+        return c
 
     def cur_vals(self, mod=None):
         mod = mod or self.m_or_uc()
         return {p: self.val_id(p, mod.parameters[p].value) for p in self.pnames}
 
     def _on_fs(self, ev):
+        if not self.recording:
+            return
         e = {'ev': 'fs', 'op': ev['op'], 'out': ev['outcome'], 'target': self.target_class(), 'cur': self.cur_class()}
         if e['target'] != self._last_target:
             self._last_target = e['target']
@@ -814,7 +824,7 @@ class Replayer:
             return 'deleted'
         if c == 'notjson':
             reps = list(NOTJSON)
-            if raw:
+            if raw and raw.startswith(b'{') and len(raw) > 8:
                 reps += [raw[:len(raw) // 2], raw[:-2], raw[1:], raw.replace(b':', b'=', 1)]
             w.fs.files[TARGET] = reps[v % len(reps)]
         elif c == 'notdict':
@@ -838,6 +848,8 @@ class Replayer:
         if act == 'start':
             cfg = {_pn(P): w.gamma(_pn(P), v) for P, v in a['cfg'].items() if v != '-'}
             return w.start(cfg, plan)
+        if act in ('writeinit', 'change', 'save') and w.m is None:
+            return 'no process'
         if act == 'writeinit':
             return w.write_init(plan)
         if act == 'change':
@@ -909,15 +921,16 @@ def _diff(exps, obs):
     return best or []
 
 
-def run_actions(acts, types, variant, plans):
+def run_actions(acts, types, variant, plans, observe=True):
     """execute the action list; plans: {step: {op index: fault}}; returns (replayer, per-step obs, windows)"""
     st0 = next(a for a in acts if a['act'] == 'start')
     rp = Replayer(types, st0['auto'], st0['hw'], variant)
+    rp.w.recording = observe
     obs, wins, outs = [], [], []
     for k, a in enumerate(acts):
         outs.append(rp.step(a, plans.get(k)))
         wins.append(list(rp.w.fs.window) if a['act'] != 'corrupt' else [])
-        obs.append(rp.alpha())
+        obs.append(rp.alpha() if observe else None)
     return rp, obs, wins, outs
 
 
@@ -934,7 +947,7 @@ def replay_group(job):
             continue
         new = []
         for plans in plansets:
-            _, _, wins, _ = run_actions(acts[:k + 1], types, variant, plans)
+            _, _, wins, _ = run_actions(acts[:k + 1], types, variant, plans, observe=False)
             pts = concrete_points(save_segment(wins[k]), f, nchunks, pick)
             for pt in pts:
                 q = dict(plans)
@@ -1260,13 +1273,42 @@ def _group(behs):
     return groups
 
 
-def _prefix_index(behs):
-    idx = {}
-    for b in behs:
-        acts = _actions(b)
-        for k in range(1, len(acts) + 1):
-            idx.setdefault(hash(json.dumps(acts[:k], sort_keys=True)), []).append([s['exp'] for s in b[:k]])
-    return idx
+class DevIndex:
+    """behaviours of the as-implemented variant (Dev = {"BelieveEarly"}), looked up by action sequence / prefix"""
+
+    def __init__(self, behs):
+        self.behs = [(_actions(b), [s['exp'] for s in b]) for b in behs]
+        self.full = {}
+        for acts, exps in self.behs:
+            self.full.setdefault(json.dumps(acts, sort_keys=True), []).append(exps)
+        self.bylen = {}
+
+    def prefix(self, acts):
+        n = len(acts)
+        if n not in self.bylen:
+            d = {}
+            for a, e in self.behs:
+                if len(a) >= n:
+                    d.setdefault(json.dumps(a[:n], sort_keys=True), {})[json.dumps(e[:n], sort_keys=True)] = e[:n]
+            self.bylen[n] = d
+        return list(self.bylen[n].get(json.dumps(acts, sort_keys=True), {}).values())
+
+    def explains(self, acts, obs, upto):
+        """longest k >= upto such that some deviating behaviour allows obs[0..k-1]; 0 if none"""
+        alts = self.full.get(json.dumps(acts, sort_keys=True))
+        n = len(acts)
+        while alts is None and n > upto:
+            n -= 1
+            alts = self.prefix(acts[:n]) or None
+        if not alts:
+            return 0, n
+        best = 0
+        for e in alts:
+            k = 0
+            while k < n and _match(e[k], obs[k]):
+                k += 1
+            best = max(best, k)
+        return best, n
 
 
 def _step_signature(acts, bad):
@@ -1279,10 +1321,10 @@ def _step_signature(acts, bad):
             'op': f.get('op', ''), 'diff': d}
 
 
-def _gen_pass(chk, name, cfg, nchunks, shapes_per, want_traces, tracebag):
+def _gen_pass(chk, name, cfg, nchunks, shapes_per, want_traces, tracebag, strict, deviating):
     """spec -> code for one Gen configuration"""
     quick = chk.tier == 'quick'
-    r, behs = emit_behaviours('Gen_Persistent', cfg, maximal_only=False, timeout=1100)
+    r, behs = strict.result()
     chk.add_tlc(r)
     groups = _group(behs)
     rnd = random.Random(chk.seed * 7919 + len(groups))
@@ -1321,33 +1363,19 @@ def _gen_pass(chk, name, cfg, nchunks, shapes_per, want_traces, tracebag):
                 continue
             # is the run explained by the recorded deviation?  (Gen with Dev = {"BelieveEarly"})
             if dev is None:
-                rd, dbehs = emit_behaviours('Gen_Persistent', cfg.replace('.cfg', '_dev.cfg'), maximal_only=False,
-                                            timeout=1100)
+                rd, dbehs = deviating.result()
                 chk.add_tlc(rd)
-                dev = _prefix_index(dbehs)
-            obs = bad['obs']
-            live = None
-            upto = 0
-            for k in range(1, len(obs) + 1):
-                cands = dev.get(hash(json.dumps(acts[:k], sort_keys=True)))
-                if cands is None:
-                    break
-                ok = [c for c in cands if all(_match(c[j], obs[j]) for j in range(k))]
-                if not ok:
-                    live = []
-                    upto = k
-                    break
-                live = ok
-                upto = k
-            if live and upto > bad['step']:
-                sig = _step_signature(acts, bad)
+                dev = DevIndex(dbehs)
+            matched, n = dev.explains(acts, bad['obs'], bad['step'] + 1)
+            sig = _step_signature(acts, bad)
+            if matched == n and n > bad['step']:
                 sig['deviation'] = 'Dev_BelieveEarly'
-                chk.violation(sig, detail)
-            else:
-                sig = _step_signature(acts, bad)
-                if live == [] and upto - 1 != bad['step']:
-                    sig['after_deviation_step'] = acts[upto - 1]['act']
-                chk.violation(sig, detail)
+            elif matched > bad['step']:
+                # the deviation explains the first mismatch, but something later is not explained by it either
+                sig = {'module': 'Persistent', 'clause': 'State', 'beyond_deviation': 'Dev_BelieveEarly',
+                       'act': acts[matched]['act'], 'fault': (acts[matched].get('f') or {}).get('kind', 'none')}
+                detail['failed_beyond_deviation_at'] = matched
+            chk.violation(sig, detail)
     chk.notes.setdefault('gen', []).append({'cfg': cfg, 'behaviours': len(behs), 'action_sequences': len(groups),
                                             'runs_mismatching_strict_spec': nbad})
     if behs:
@@ -1423,20 +1451,33 @@ def run(chk):
             if w.usable(p, b)[0] != 'bad':
                 raise MachineryError(f'catalogue: {b!r} is a valid {t}')
 
-    # 1 design check
-    chk.add_tlc(model_check('Persistent', 'MC_Persistent_quick.cfg' if quick else 'MC_Persistent_thorough.cfg',
-                            timeout=1100))
-    r = run_tlc('Persistent', 'MC_Persistent_asimplemented.cfg', timeout=300)
-    if not r.violated or r.violated[1] != 'Retry':
-        raise MachineryError('the Retry invariant does not distinguish the as-implemented design (vacuous?)')
-    chk.add_tlc(r)
-
-    # 2 spec -> code
-    bag = []
+    # TLC runs side by side: design check, as-implemented variant, behaviour emission (strict and deviating)
+    from concurrent.futures import ThreadPoolExecutor
     t = 'quick' if quick else 'thorough'
-    _gen_pass(chk, 'faults', f'Gen_Persistent_{t}.cfg', 2 if quick else 3, 1 if quick else 2, 9 if quick else 40, bag)
-    _gen_pass(chk, 'corrupt', f'Gen_PersistentC_{t}.cfg', 2, 2 if quick else 6, 5 if quick else 20, bag)
+    import time as _t
+    t0 = _t.time()
+    with ThreadPoolExecutor(6) as ex:
+        mc = ex.submit(model_check, 'Persistent', f'MC_Persistent_{t}.cfg', timeout=1100)
+        asimp = ex.submit(run_tlc, 'Persistent', 'MC_Persistent_asimplemented.cfg', timeout=300)
+        em = {c: ex.submit(emit_behaviours, 'Gen_Persistent', c, maximal_only=False, timeout=1100)
+              for c in (f'Gen_Persistent_{t}.cfg', f'Gen_Persistent_{t}_dev.cfg',
+                        f'Gen_PersistentC_{t}.cfg', f'Gen_PersistentC_{t}_dev.cfg')}
+        # 1 design check
+        chk.add_tlc(mc.result())
+        r = asimp.result()
+        if not r.violated or r.violated[1] != 'Retry':
+            raise MachineryError('the Retry invariant does not distinguish the as-implemented design (vacuous?)')
+        chk.add_tlc(r)
+        chk.notes['phase_s'] = {'mc': round(_t.time() - t0, 1)}
+        # 2 spec -> code
+        bag = []
+        _gen_pass(chk, 'faults', f'Gen_Persistent_{t}.cfg', 2 if quick else 3, 1 if quick else 2, 9 if quick else 40,
+                  bag, em[f'Gen_Persistent_{t}.cfg'], em[f'Gen_Persistent_{t}_dev.cfg'])
+        _gen_pass(chk, 'corrupt', f'Gen_PersistentC_{t}.cfg', 2, 2 if quick else 6, 5 if quick else 20,
+                  bag, em[f'Gen_PersistentC_{t}.cfg'], em[f'Gen_PersistentC_{t}_dev.cfg'])
 
+    chk.notes['phase_s']['gen_replay'] = round(_t.time() - t0, 1)
+    t0 = _t.time()
     # 3 code -> spec
     n = 250 if quick else 4000
     items = list(bag)
@@ -1458,7 +1499,10 @@ def run(chk):
         items += part
     chk.notes['traces'] = {'from_gen_replays': len(bag), 'total': len(items),
                            'events': sum(len(x['trace']) for x in items)}
+    chk.notes['phase_s']['trace_generation'] = round(_t.time() - t0, 1)
+    t0 = _t.time()
     _validate(chk, items)
+    chk.notes['phase_s']['trace_validation'] = round(_t.time() - t0, 1)
     chk.sample({'trace_prefix': tlc_view(items[-1]['trace'])[:3]})
     chk.exhaustive = False
 
